@@ -227,7 +227,8 @@ def main():
     expect("TracePrecond.tla", "TracePrecond.cfg", c, "C18", "enumeration-incomplete", d, results)
     # ---- vacuity: every action of the bounded models is taken ----------------------------------
     dead = []
-    for spec, cfg in (("MCWorld.tla", "MCWorld2q.cfg"), ("MCSchedule.tla", "MCSchedule2.cfg")):
+    for spec, cfg in (("MCWorld.tla", "MCWorld2q.cfg"), ("MCSchedule.tla", "MCSchedule2.cfg"), ("Ledger.tla", "Ledger.cfg"),
+                      ("Heap.tla", "Heap.cfg")):
         r = tlc_mc(spec, cfg, os.path.join(d, cfg + ".meta"), workers=8, timeout=1800, extra=["-coverage", "1"])
         if not r["ok"]:
             raise ToolError("selftest: model %s fails" % cfg)
